@@ -27,6 +27,9 @@ def main():
         if fn is None and spec["q"] in ("hash_layer",):
             from mirsym import queries_hash as QH
             fn = getattr(QH, "q_" + spec["q"])
+        if fn is None and spec["q"] in ("ecies", "aes_dispatch"):
+            from mirsym import queries_ecies as QE
+            fn = getattr(QE, "q_" + spec["q"])
         if fn is None and spec["q"] in ("decoders",):
             from mirsym import queries_total as QTT
             fn = getattr(QTT, "q_" + spec["q"])
